@@ -81,8 +81,8 @@ func modelInputs(model string) map[string]string {
 	return m
 }
 
-func writeReplay(verif, repo, prop string, cfg *PropCfg, r *ObResult, v *Verifier) string {
-	dir := filepath.Join(verif, "replays", prop)
+func writeReplay(verif, repo, replays, prop string, cfg *PropCfg, r *ObResult, v *Verifier) string {
+	dir := filepath.Join(replays, prop)
 	os.MkdirAll(dir, 0755)
 	path := filepath.Join(dir, sanitize(r.Name)+".json")
 	rf := ReplayFile{Property: prop, Obligation: r.Name, Function: r.Fn, Kind: r.Kind, Clause: r.Clause, Status: r.Status}
